@@ -255,6 +255,8 @@ func (w *world) apply(rep *replica, m message, what string) (objecttree.AddResul
 	}
 	before := iterIds(rep.tree)
 	rootBefore := rep.tree.Root().Id
+	prePath, _ := rep.tree.SnapshotPath()
+	pre := addRawPre{root: rootBefore, att: objecttree.VerifTree(rep.tree).VerifAttachedIds(), stored: storedIds(w.stored(rep)), path: append([]string{}, prePath...)}
 	rep.cache = nil
 	rep.tree.Lock()
 	res, err := rep.tree.AddRawChanges(w.ctx, objecttree.RawChangesPayload{NewHeads: m.heads, RawChanges: m.changes, SnapshotPath: m.path})
@@ -270,6 +272,15 @@ func (w *world) apply(rep *replica, m message, what string) (objecttree.AddResul
 	}
 	w.logf("%s rep%d<-rep%d heads=%s path=%s changes=%s mode=%s added=%s root=%s", what, rep.idx, m.from, join(m.heads), join(m.path), join(ids), modeName(res.Mode), join(added), rep.tree.Root().Id)
 	w.r.Count("apply." + what)
+	known := true
+	for _, id := range ids {
+		if w.info[id] == nil {
+			known = false
+		}
+	}
+	if known {
+		w.corrAddRaw(pre, ids, m.path, added, what)
+	}
 	if newRoot := rep.tree.Root().Id; newRoot != rootBefore {
 		back := false
 		for _, x := range w.snapChain(rootBefore)[1:] {
